@@ -221,17 +221,26 @@ def design_of_text(text):
     Comment lines (`#` first word) and blank lines are dropped; `\\` at the end of a line joins."""
     joined = re.sub(r"(?m)[ \t]\\[ \t]*\n", " ", text)
     lines = [l.split() for l in joined.split("\n")]
-    lines = [l for l in lines if l and l[0] != "#"]
     models = []
     cur = None
+    pending = []      # comment / blank lines seen since the last statement line
+    where = None      # "hdr" | "info" | None: what the last statement line was
     for l in lines:
+        if not l or l[0] == "#":
+            if cur is not None:
+                pending.append(" ".join(l))
+            continue
         kw = l[0]
+        pend, pending = pending, []
         if kw == ".model":
-            cur = {"name": l[1], "hdr": [], "stmts": [], "blackbox": False}
+            cur = {"name": l[1], "hdr": [], "stmts": [], "blackbox": False, "hdr_comments": {}}
             models.append(cur)
+            where = "hdr"
         elif cur is None:
             continue
         elif kw in (".inputs", ".outputs", ".clock"):
+            if where == "hdr" and pend:
+                cur["hdr_comments"][str(len(cur["hdr"]))] = pend
             cur["hdr"].append([kw[1:], l[1:]])
         elif kw in (".subckt", ".gate"):
             conns = []
@@ -242,31 +251,43 @@ def design_of_text(text):
                 conns.append([p, b, "b" if f.endswith("]") else "s",
                               None if an == "unconn" else [an, ai, "b" if a.endswith("]") else "s"]])
             cur["stmts"].append({"k": kw[1:], "model": l[1], "conns": conns, "cname": None, "attrs": [], "params": []})
+            where = "info"
         elif kw == ".names":
             cur["stmts"].append({"k": "names", "nets": [_ref(w) for w in l[1:]], "covers": [],
                                  "cname": None, "attrs": [], "params": []})
+            where = "info"
         elif kw == ".latch":
             cur["stmts"].append({"k": "latch", "fields": [_ref(w) for w in l[1:]],
                                  "cname": None, "attrs": [], "params": []})
+            where = "info"
         elif kw == ".conn":
             cur["stmts"].append({"k": "conn", "a": _ref(l[1]), "b": _ref(l[2])})
-        elif kw == ".cname":
-            cur["stmts"][-1]["cname"] = l[1]
-        elif kw == ".attr":
-            _dset(cur["stmts"][-1]["attrs"], l[1], l[2])
-        elif kw == ".param":
-            _dset(cur["stmts"][-1]["params"], l[1], l[2])
+            where = None
+        elif kw in (".cname", ".attr", ".param") and cur["stmts"] and cur["stmts"][-1]["k"] != "conn":
+            st = cur["stmts"][-1]
+            if where == "info" and any(x.startswith("#") for x in pend):
+                st.setdefault("lay", {}).setdefault("inner", {})["0"] = [x for x in pend if x.startswith("#")]
+            if kw == ".cname":
+                st["cname"] = l[1]
+            elif kw == ".attr":
+                _dset(st["attrs"], l[1], l[2])
+            else:
+                _dset(st["params"], l[1], l[2])
         elif kw == ".blackbox":
             cur["blackbox"] = True
+            where = None
         elif kw == ".end":
             cur = None
+            where = None
         elif cur["stmts"] and cur["stmts"][-1]["k"] == "names" and set(kw) <= set("01-"):
             cur["stmts"][-1]["covers"].append([l[0], l[1] if len(l) > 1 else None])
+        if kw not in (".model", ".inputs", ".outputs", ".clock") and where == "hdr":
+            where = None
     if not models:
         return None
     top = models[0]
     d = {"top": top["name"], "hdr": [[k, (ws if k == "clock" else [_ref(w) for w in ws])] for k, ws in top["hdr"]],
-         "stmts": top["stmts"], "bbs": [], "lay": {}}
+         "stmts": top["stmts"], "bbs": [], "lay": ({"hdr_comments": top["hdr_comments"]} if top["hdr_comments"] else {})}
     for m in models[1:]:
         if not m["blackbox"] or m["stmts"]:
             d["unsupported"] = "second non-blackbox model"
